@@ -1208,6 +1208,8 @@ def gen_expr_program(seed, wide=False):
         if k < 0.3:
             return {'k': 'var', 'name': r.choice(names)}
         if k < 0.5:
+            if wide and r.random() < 0.3:
+                return {'k': 'num', 'v': r.choice([2147483647, 2147483648, 4294967295, 4294967296, 3000000000, 1000000000000, 65537, 16777216])}
             return {'k': 'num', 'v': r.choice([0, 1, 2, 3, 5, 7, 8, 10, 31, 32, 100, 127, 128, 255, 256, 1000, 32767, 65536])}
         if k < 0.6:
             return {'k': 'chr', 'c': r.choice(b'a0Z ')}
@@ -1228,7 +1230,7 @@ def gen_expr_program(seed, wide=False):
         if op in ('/', '%'):
             rr = r.choice([{'k': 'num', 'v': r.choice([1, 2, 3, 7, 10, 16])}, arith(d - 1)])
         elif op in ('<<', '>>'):
-            rr = r.choice([{'k': 'num', 'v': r.randint(0, 7)}, {'k': 'bin', 'op': '&', 'l': atom(), 'r': {'k': 'num', 'v': 7}}])
+            rr = r.choice([{'k': 'num', 'v': r.randint(0, 40 if wide else 7)}, {'k': 'bin', 'op': '&', 'l': atom(), 'r': {'k': 'num', 'v': 63 if wide else 7}}])
         else:
             rr = arith(d - 1)
         return {'k': 'bin', 'op': op, 'l': l, 'r': rr}
